@@ -279,6 +279,9 @@ ScaleUpOutcome(gs0, g, dry, now, F, N, ts, att, fleetLo, r) ==
       \* scaleUpCloudProviderNodeGroup: clamp against the cached target size (fix F1: and max_nodes)
       bound == Min2(u.pc.max, u.ctl.maxEff)
       add == AddClamp(u.pc.desired, rest, bound)
+      \* a slow cloud call (fault "slow"): one tick passes before the cloud answers; the request is accepted, and the cool-down
+      \* starts, when it answers
+      sl == IF Failing(F, "slow", g) THEN 1 ELSE 0
   IN
   IF rest <= 0 THEN [u EXCEPT !.valid = @ /\ selOK, !.result = u.succ]
   ELSE IF add <= 0 THEN [u EXCEPT !.valid = @ /\ selOK, !.result = 0, !.uperr = TRUE]
@@ -293,8 +296,8 @@ ScaleUpOutcome(gs0, g, dry, now, F, N, ts, att, fleetLo, r) ==
                 u2 == [u EXCEPT !.valid = @ /\ selOK, !.calls = @ \o fcalls, !.tries = fr.tries, !.exit = fr.exit,
                                 !.asg = [@ EXCEPT !.desired = @ + fr.attached, !.members = @ \cup FleetNames(fleetLo, fr.attached)]]
             IN IF fr.ret = "nil"
-                 THEN [u2 EXCEPT !.result = u.succ + add, !.accepted = now,
-                                 !.ctl = [@ EXCEPT !.isLocked = TRUE, !.requested = add, !.lockAt = now]]
+                 THEN [u2 EXCEPT !.result = u.succ + add, !.accepted = now + sl, !.elapsed = sl,
+                                 !.ctl = [@ EXCEPT !.isLocked = TRUE, !.requested = add, !.lockAt = now + sl]]
                  ELSE [u2 EXCEPT !.result = 0, !.uperr = TRUE]
        ELSE LET target == u.pc.desired + add
                 injected == Failing(F, "set_desired", g)
@@ -303,8 +306,8 @@ ScaleUpOutcome(gs0, g, dry, now, F, N, ts, att, fleetLo, r) ==
                 c == Call("set_desired", g, g, ok, target, u.asg.desired, IF injected THEN "injected" ELSE IF bounds THEN "bounds" ELSE "")
             IN IF ok THEN [u EXCEPT !.valid = @ /\ selOK, !.result = u.succ + add, !.calls = Append(@, c),
                                     !.asg = [@ EXCEPT !.desired = target],
-                                    !.accepted = now,
-                                    !.ctl = [@ EXCEPT !.isLocked = TRUE, !.requested = add, !.lockAt = now]]
+                                    !.accepted = now + sl, !.elapsed = sl,
+                                    !.ctl = [@ EXCEPT !.isLocked = TRUE, !.requested = add, !.lockAt = now + sl]]
                ELSE [u EXCEPT !.valid = @ /\ selOK, !.result = 0, !.uperr = TRUE, !.calls = Append(@, c)]
 
 \* scale_down.go TryRemoveTaintedNodes candidates, in lister order
@@ -328,7 +331,7 @@ GroupScan(gs, g, now, dryAll, F, obs) ==
       base == [calls |-> <<>>, api |-> gs.api, asg |-> gs.asg, pc |-> gs.pc, ctl |-> ctl0, accepted |-> gs.accepted, tries |-> gs.tries, exit |-> FALSE,
                pids |-> [n \in DOMAIN view |-> view[n].pid],
                terminated |-> {}, deleted |-> {}, tainted |-> {}, untainted |-> {}, succ |-> 0, result |-> 0,
-               ret |-> "nil", ok |-> TRUE, valid |-> TRUE, uperr |-> FALSE,
+               ret |-> "nil", ok |-> TRUE, valid |-> TRUE, uperr |-> FALSE, elapsed |-> 0,
                lookReq |-> {}, lookMay |-> {}, fatal |-> FALSE, panics |-> FALSE, branch |-> "", nd |-> 0, ndSet |-> {0},
                sel |-> [dir |-> 0, cands |-> {}, k |-> 0, fails |-> {}],
                counts |-> [all |-> -1, cord |-> -1, unt |-> -1, taint |-> -1, force |-> -1, pods |-> -1]]
@@ -434,7 +437,7 @@ GroupScan(gs, g, now, dryAll, F, obs) ==
   ELSE IF nd > 0 THEN
        LET u == ScaleUpOutcome(gs, g, dry, now, F, nd, ts, obs.att, obs.fleetLo, r4)
        IN IF u.exit THEN [u EXCEPT !.branch = "exit", !.ret = "error"]
-          ELSE Done([u EXCEPT !.ctl = [@ EXCEPT !.lastOut = now]], nd, "nil", "up")
+          ELSE Done([u EXCEPT !.ctl = [@ EXCEPT !.lastOut = now + u.elapsed]], nd, "nil", "up")
   ELSE \* nothing to scale: reap only
        LET gr == DeleteBatch(GraceCands(gs, dry, now, ts), g, F, r4)
        IN IF gr.ret = "notingroup" THEN [Done(gr, 0, "notingroup", "idle_fatal") EXCEPT !.fatal = TRUE]
@@ -468,7 +471,7 @@ GroupLoop(i, F, obs, acc, order) ==
   IF i > Len(order) THEN acc
   ELSE LET g == order[i]
            r == GroupScan(acc.W.groups[g], g, acc.W.now, acc.W.dryAll, F, obs[g])
-           W2 == [acc.W EXCEPT !.groups = [@ EXCEPT ![g] = PostGroup(acc.W.groups[g], r)]]
+           W2 == [acc.W EXCEPT !.groups = [@ EXCEPT ![g] = PostGroup(acc.W.groups[g], r)], !.now = @ + r.elapsed]
            acc2 == [acc EXCEPT !.W = W2, !.calls = @ \o r.calls, !.valid = @ /\ r.valid, !.res = [@ EXCEPT ![g] = r]]
        IN IF r.exit THEN [acc2 EXCEPT !.ret = "error", !.exit = TRUE, !.W = [W2 EXCEPT !.alive = FALSE]]
           ELSE IF r.fatal THEN [acc2 EXCEPT !.ret = "notingroup", !.W = [W2 EXCEPT !.alive = FALSE]]
